@@ -649,8 +649,65 @@ def extend_contracts(reg):
     it = Interp(reg)
     it.poison_one_arm = False
     it.run_paths(body2)
-    reg.assume("linear_extrapolation / geometric_extrapolation (the grid between and beyond the end points: increasing, "
-               "starts at q_min, ends at q_max) are covered by the bounded constructor runs only")
+    linear_extrapolation_contract(reg)
+    reg.assume("geometric_extrapolation (slit grids) and 'the extrapolated grid is increasing' are covered by the bounded "
+               "constructor runs only")
+
+
+def linear_extrapolation_contract(reg):
+    """result[0] <= q_min + 2e-8, result[-1] >= q_max - 2e-8, the sorted data block sits in between."""
+    fn = "sasmodels.resolution.linear_extrapolation"
+    eps = _float(2e-8)
+
+    def body(it):
+        n = z3.Int("n")
+        q = it.new_array("q", n, "real")
+        qmin, qmax = z3.Real("q_min"), z3.Real("q_max")
+        it.assume(n >= 1)
+        g = it.get_func("sasmodels.resolution", "linear_extrapolation")
+        out = it.call(g, [q, Sym(qmin), Sym(qmax)])
+        pc = list(it.pc)
+        ln = out.length()
+        le = ln.e if isinstance(ln, Sym) else z3.IntVal(ln)
+        # linspace facts: first point is the start, last point is the stop (numpy's endpoint=True)
+        facts = []
+        for mono in it.__dict__.get("linspace_schemas", []):
+            a_, b_, ne_ = mono.bounds
+            facts += [mono.defn(z3.IntVal(0)), z3.Implies(ne_ >= 2, mono.fn(ne_ - 1) == b_)]
+        sorts = it.ghost.get("sorts", [])
+        rp = lambda mdl=None: replay_linear_extrapolation()
+        reg.prove("%s.linear_extrapolation.post.starts_at_or_below_q_min" % PROP, pc + facts + [le >= 1],
+                  out.at(0) <= qmin + eps, function=fn, replay=rp, timeout_ms=60000)
+        reg.prove("%s.linear_extrapolation.post.ends_at_or_above_q_max" % PROP, pc + facts + [le >= 1],
+                  out.at(le - 1) >= qmax - eps, function=fn, replay=rp, timeout_ms=60000)
+        if sorts:
+            S = sorts[-1][0]
+            i = z3.Int("i")
+            lo = z3.Int("len_low")
+            reg.prove("%s.linear_extrapolation.post.contains_the_sorted_data_as_one_block" % PROP, pc + facts,
+                      z3.Exists([lo], z3.And(lo >= 0, lo + n <= le,
+                                             z3.ForAll([i], z3.Implies(z3.And(i >= 0, i < n), out.at(lo + i) == S(i))))),
+                      function=fn, replay=rp, timeout_ms=60000)
+        it.discharge_sides(reg, "%s.linear_extrapolation" % PROP, function=fn)
+    it = Interp(reg)
+    it.poison_one_arm = False
+    try:
+        it.run_paths(body)
+    except OutsideSubset as exc:
+        reg.undecided("%s.linear_extrapolation.engine" % PROP, "outside subset: %s" % exc, function=fn)
+
+
+def replay_linear_extrapolation():
+    import numpy as np
+    from sasmodels import resolution
+    bad, out = False, []
+    for q, lo, hi in ((np.array([0.01, 0.02, 0.05]), -0.004, 0.2), (np.array([0.1]), 0.05, 0.3),
+                      (np.array([0.03, 0.01, 0.02]), 0.01, 0.03)):
+        r = resolution.linear_extrapolation(q, lo, hi)
+        ok = r[0] <= lo + 2e-8 and r[-1] >= hi - 2e-8 and all(np.any(np.isclose(r, x, rtol=0, atol=0)) for x in q)
+        bad = bad or not ok
+        out.append({"q": q.tolist(), "q_min": lo, "q_max": hi, "first": float(r[0]), "last": float(r[-1])})
+    return bad, {"call": "linear_extrapolation(q, q_min, q_max)", "real": out, "spec": "first <= q_min + 2e-8, last >= q_max - 2e-8"}
 
 
 # --------------------------------------------------------------------------
@@ -783,7 +840,7 @@ def bounded_sweep(reg):
 
 def check(reg, tier):
     bin_edges_contract(reg)
-    for nq in (1, 2):
+    for nq in ((1, 2, 3) if tier == "thorough" else (1, 2)):
         pinhole_resolution_contract(reg, nq)
     q_perp_weights_contract(reg)
     slit_row_contracts(reg)
